@@ -285,7 +285,7 @@ func toModelReq(q *z80.Interrupt) *model.Req {
 	if q == nil {
 		return nil
 	}
-	return &model.Req{NMI: q.Type == z80.NMIType, Data: q.Data}
+	return &model.Req{NMI: q.Type == z80.NMIType, Data: append([]uint8(nil), q.Data...)}
 }
 
 func (c06) Exec(sci interface{}, env *Env) *Violation {
@@ -295,6 +295,7 @@ func (c06) Exec(sci interface{}, env *Env) *Violation {
 		return viol("harness", "bad scenario: %v", err)
 	}
 	m.CPU.HALT = sc.Halted
+	m.ReuseRequests = sc.Regs.R&1 == 1 // the host keeps one request value per kind and re-presents the same pointer
 	if sc.NilHandlers {
 		m.CPU.RETNHandler, m.CPU.RETIHandler = nil, nil
 	}
@@ -348,12 +349,19 @@ func (c06) Exec(sci interface{}, env *Env) *Violation {
 			twin.Step()
 		}
 
+		reqModel := toModelReq(req) // by value, taken before the Step: the library has no business writing into it
+		reqCopy := world.CloneRequest(req)
 		si := m.StepNoBoundary()
 		env.Steps++
+		if req != nil && cpu.Interrupt != nil && !world.SameRequest(req, reqCopy) {
+			// only for a request that was NOT consumed ("a refused request changes nothing"); what the library
+			// does to a value it has consumed shows up when the host presents that value again (Machine.Mutated)
+			return viol("request-value-modified", "the Step wrote into the refused request it was given: %s before, %s after", world.FmtRequest(reqCopy), world.FmtRequest(req))
+		}
 
 		var cands []*model.IntState
 		for _, s := range ms {
-			cands = append(cands, s.Next(toModelReq(req))...)
+			cands = append(cands, s.Next(reqModel)...)
 		}
 		// a state the model cannot follow ends the comparison
 		anyUnknown := false
@@ -396,6 +404,9 @@ func (c06) Exec(sci interface{}, env *Env) *Violation {
 		}
 		if m.StaleCount() != 0 {
 			return viol("stale-device", "%d accesses went to a Memory/IO value the host had already replaced; %s", m.StaleCount(), ctx())
+		}
+		if m.Mutated != "" {
+			return viol("request-value-modified", "%s; %s", m.Mutated, ctx())
 		}
 		c := match[0]
 
